@@ -682,7 +682,7 @@ def _diff(a, b):
 
 class RunsStream(Stream):
     name = "runs"
-    rule = ("generated projects (REUSE.toml hierarchies with all three precedences, .reuse/dep5, plain, a root directory itself named "
+    rule = ("generated projects (REUSE.toml hierarchies with all three precedences, hierarchies of closest tables supplying one half each, .reuse/dep5, plain, a root directory itself named "
             "`subprojects`, a Git repository; headers in several comment styles incl. stacked terminators such as `MIT */-->`, "
             ".license sidecars of binaries, unparseable expressions, LICENSES/ with unused / deprecated / extension-less / bad "
             "entries, a top-level subprojects/x/): `lint --json`, `spdx`, `spdx --add-license-concluded` are run (a) serially, (b) with "
@@ -692,10 +692,10 @@ class RunsStream(Stream):
             "spelt relatively, absolutely, with a trailing slash, as ./x/../x and via sub/..; outputs are normalised (lists "
             "sorted, namespace uuid / timestamp / tool version dropped, printed paths mapped to the file they denote) and "
             "all runs of one tree must coincide; non-trivial = distinct trees with >= 5 files and a non-compliant verdict")
-    KINDS = ["toml", "dep5", "subprojects-root", "plain", "git"]
+    KINDS = ["toml", "toml-partial", "dep5", "subprojects-root", "plain", "git"]
 
     def cases(self, tier, rng):
-        n = 25 if tier == "thorough" else 5
+        n = 30 if tier == "thorough" else 6
         for i in range(n):
             yield {"seed": rng.randrange(1 << 30), "kind": self.KINDS[i % len(self.KINDS)],
                    "seeds": HASHSEEDS_THOROUGH if tier == "thorough" else HASHSEEDS_QUICK}
